@@ -461,9 +461,96 @@ def oracle_build(pid, sc, ob, pair=None):
     return None
 
 
+# ---------------------------------------------------------------- ChunkedReadFile on real files (native/file_witness.rs): bounded stand-in for C18
+def file_line(sc):
+    if sc["kind"] == "range":
+        return "|".join([sc["id"], "range", str(sc["size"]), str(sc["a"]), str(sc["b"]), "-" if sc.get("trunc_after") is None else str(sc["trunc_after"]), str(sc.get("trunc_to", 0))])
+    if sc["kind"] == "etag":
+        return "|".join([sc["id"], "etag", str(sc["size"]), str(sc["secs"]), str(sc["nanos"]), sc["action"]])
+    return sc["id"] + "|nonregular"
+
+
+def fam_file():
+    out, k = [], 0
+    for S in (0, 1, 65535, 65536, 65537, 131072, 200001):
+        pts = sorted(set(x for x in (0, 1, 65535, 65536, 65537, 131071, 131072, 131073, S - 1, S) if 0 <= x <= S))
+        for a in pts:
+            for b in pts:
+                if a <= b:
+                    k += 1
+                    out.append({"id": "fr%d" % k, "kind": "range", "size": S, "a": a, "b": b})
+    for S in (65537, 131072, 200001):
+        for (a, b) in ((0, S), (65536, S), (1, S - 1), (0, 65537)):
+            for after in (0, 1, 2):
+                for to in sorted(set(x for x in (0, a, a + 1, 65536, 65537, b - 1, b, S) if 0 <= x <= S)):
+                    k += 1
+                    out.append({"id": "ft%d" % k, "kind": "range", "size": S, "a": a, "b": b, "trunc_after": after, "trunc_to": to})
+    for size in (0, 5):
+        for (secs, nanos) in ((10 ** 9, 0), (10 ** 9, 123456789), (0, 0), (0, 500000000), (-1, 500000000), (-5, 0), (-86400, 250000000), (2 ** 31, 0), (1, 0)):
+            for action in ("same", "append", "touch", "touchsec", "replace"):
+                k += 1
+                out.append({"id": "fe%d" % k, "kind": "etag", "size": size, "secs": secs, "nanos": nanos, "action": action})
+    out.append({"id": "fn1", "kind": "nonregular"})
+    return out
+
+
+def oracle_file(pid, sc, line):
+    if pid != "C18":
+        return None
+    f = line.split("|")
+    if sc["kind"] == "nonregular":
+        return None if f[1] == "refused" else "ChunkedReadFile::new accepted a directory"
+    if sc["kind"] == "etag":
+        if f[3] != "-":
+            return "ChunkedReadFile panics for a file modified at %d.%09d s: %s" % (sc["secs"], sc["nanos"], bytes.fromhex(f[3]).decode("utf8", "replace"))
+        for e in (f[1], f[2]):
+            if e == "none":
+                return "no ETag"
+            b = bytes.fromhex(e)
+            if len(b) < 2 or b[:1] != b'"' or b[-1:] != b'"' or any(c == 0x22 or c < 0x21 or c > 0x7e for c in b[1:-1]):
+                return "ETag %r is not a syntactically valid strong entity-tag" % b
+        if sc["action"] == "same" and f[1] != f[2]:
+            return "two instances on the unmodified file have different ETags %r / %r" % (bytes.fromhex(f[1]), bytes.fromhex(f[2]))
+        if sc["action"] != "same" and f[1] == f[2]:
+            return "ETag %r unchanged after `%s` (length, modification time or identity changed)" % (bytes.fromhex(f[1]), sc["action"])
+        return None
+    size, a, b = sc["size"], sc["a"], sc["b"]
+    if int(f[1]) != size:
+        return "len() = %s for a file of %d bytes" % (f[1], size)
+    if f[2] != "1":
+        return "last_modified() differs from the file's modification time at construction"
+    items = f[3].split(",")
+    total = 0
+    for it in items:
+        if it[0] == "D":
+            n, ok = it[1:].split(":")
+            if int(n) == 0:
+                return "empty chunk"
+            if ok != "1":
+                return "chunk bytes differ from the file bytes"
+            total += int(n)
+    if total > b - a:
+        return "stream delivered %d bytes for a range of %d" % (total, b - a)
+    last = items[-1]
+    truncated = sc.get("trunc_after") is not None and sc["trunc_to"] < b
+    if last == "LIMIT":
+        return "stream did not terminate within 64 items (looping)"
+    if last == "N" and total != b - a:
+        return "stream ended cleanly after %d of %d bytes%s" % (total, b - a, " (file truncated to %d)" % sc["trunc_to"] if truncated else "")
+    if last == "E" and not truncated:
+        return "stream failed on an intact file"
+    return None
+
+
 def judge(pid, test, scs, lines):
     """First scenario of one native run that violates property `pid`: (scenario, observation line, why, paired scenario) or None."""
     is_stream = test == "stream_witness"
+    if test == "file_witness":
+        for sc, ln in zip(scs, lines):
+            why = oracle_file(pid, sc, ln)
+            if why:
+                return sc, ln, why, None
+        return None
     if is_stream:
         obs = {sc["id"]: (sc, parse_stream_obs(ln), ln) for sc, ln in zip(scs, lines)}
         for i, (sc, o, ln) in obs.items():
@@ -519,6 +606,7 @@ def fam_stream_disconnect():
 FAMILIES[("chunker", "Reader::drop")] = ("stream_witness", fam_stream_disconnect)
 FAMILIES[("chunker", "Reader")] = ("stream_witness", lambda: fam_stream_ops(5, (2, 3)) + fam_stream_ops(4, (1,)))
 FAMILIES[("chunker", "Writer")] = FAMILIES[("chunker", "Reader")]
+FAMILIES[("file", "")] = ("file_witness", fam_file)
 FAMILIES[("build", "")] = ("stream_witness", fam_build)
 FAMILIES[("gz", "")] = ("stream_witness", fam_accept_encoding)
 FAMILIES[("gz", "should_gzip")] = ("stream_witness", fam_accept_encoding)
@@ -625,6 +713,12 @@ def fam_range_headers():
             for s2 in ("1-1", "-2", "%d-%d" % (L, L + 5), "-%d" % (L + 1)):
                 k += 1
                 out.append({"id": "rg%d" % k, "method": "GET", "headers": [("range", "bytes=%s, %s" % (s1, s2))], "len": L, "etag": '"x"', "lm": "1000000000.0", "scripts": ["N", "N"], "extra_polls": 0})
+    # values that are not range requests at all (short, other units, other case, stray whitespace, empty list elements)
+    for v in ("", "b", "byte", "bytes", "bytes=", "0-1", "-5", "none", "=", "bytes =0-1", "Bytes=0-1", "BYTES=0-1", "bytes=0-1,", "bytes=,0-1", "bytes=0-1,,2-3",
+              "bytes=0-1 ", " bytes=0-1", "bytes=0 - 1", "bytes=-", "bytes=--1", "bytes=1--2", "bytes=a-b", "bytes=0x1-2", "bytes=+1-2", "bytes=1-2;q=1", "items=0-1", "bytes"):
+        for L in (0, 10):
+            k += 1
+            out.append({"id": "rg%d" % k, "method": "GET", "headers": [("range", v)], "len": L, "etag": '"x"', "lm": "1000000000.0", "scripts": [], "extra_polls": 0})
     return out
 
 
@@ -986,7 +1080,7 @@ def try_upgrade(pid, ob, repo=None):
         test, gen = fam
         scs = gen()
         searched += len(scs)
-        mk = stream_line if test == "stream_witness" else scenario_line
+        mk = _mk_line(test)
         lines = run_native(test, [mk(x) for x in scs], repo)
         hit = judge(pid, test, scs, lines)
         if hit:
@@ -998,6 +1092,10 @@ def try_upgrade(pid, ob, repo=None):
                 ob["native_replay"]["paired_scenario"] = paired
             return
     ob["native_replay"] = {"status": "no failing input among %d scenarios" % searched, "reproduced": False, "searched": searched}
+
+
+def _mk_line(test):
+    return {"stream_witness": stream_line, "file_witness": file_line}.get(test, scenario_line)
 
 
 def _fam_prefix(i):
@@ -1029,8 +1127,6 @@ def fam_paths():
     return out
 
 
-def path_line(sc):
-    return "%s|%s" % (sc["id"], sc["path"].encode().hex())
 
 
 def oracle_path(pid, sc, obs):
@@ -1047,16 +1143,74 @@ def oracle_path(pid, sc, obs):
     return None
 
 
+GZ_TREE = {"plain": "P", "both": "P", "both.gz": "P", "gzdir": "P", "onlygz.gz": "P", "sub/both": "P", "sub/both.gz": "P", "dir.gz": "P", "both.gz.gz": "P",
+           "gzdir.gz": "D", "missing.gz": "D", "sub": "D", "dir": "D"}
+GZ_CONTENT = {"plain": "P:plain", "both": "P:both", "both.gz": "Z:both", "gzdir": "P:gzdir", "onlygz.gz": "Z:onlygz", "sub/both": "P:sub/both",
+              "sub/both.gz": "Z:sub/both", "dir.gz": "Z:dir", "both.gz.gz": "Z:both.gz"}
+
+
+def fam_gz_siblings():
+    out, k = [], 0
+    for path in ("plain", "both", "gzdir", "onlygz", "missing", "sub/both", "dir", "both.gz", "sub", "nothing"):
+        for ae in (None, "gzip", "identity", "gzip;q=0", "*", "gzip;q=0.5, identity;q=0.9", "br", "gzip, identity;q=0", ""):
+            for auto in (1, 0):
+                k += 1
+                out.append({"id": "gs%d" % k, "kind": "gz", "path": path, "ae": ae, "auto": auto})
+    return out
+
+
+def path_line(sc):
+    if sc.get("kind") == "gz":
+        return "%s|gz|%s|%s|%d" % (sc["id"], sc["path"].encode().hex(), "-" if sc["ae"] is None else sc["ae"].encode().hex(), sc["auto"])
+    return "%s|%s" % (sc["id"], sc["path"].encode().hex())
+
+
+def oracle_gz_sibling(pid, sc, obs):
+    """C19, .gz-sibling clause: which file is opened and what encoding()/add_encoding_headers/encoding_varies report."""
+    if pid != "C19":
+        return None
+    f = obs.split("|")
+    what, enc, varies = f[0], f[1][4:], f[2][7:]
+    hdrs = dict(kv.split("=", 1) for kv in f[3].split(",") if kv) if len(f) > 3 else {}
+    pref = py_should_gzip(sc["ae"])
+    if pref is None:
+        return None
+    path = sc["path"]
+    sib = GZ_TREE.get(path + ".gz")
+    want_gz = bool(sc["auto"]) and pref and sib == "P"
+    if want_gz:
+        exp = "ok:file:" + GZ_CONTENT[path + ".gz"]
+    elif GZ_TREE.get(path) == "P":
+        exp = "ok:file:" + GZ_CONTENT[path]
+    elif GZ_TREE.get(path) == "D":
+        exp = "ok:dir"
+    else:
+        exp = "err:NotFound"
+    ctx = "get(%r) with Accept-Encoding %r, auto_gzip %s" % (path, sc["ae"], bool(sc["auto"]))
+    if what != exp:
+        return "%s returned %s, expected %s" % (ctx, what, exp)
+    if what.startswith("ok"):
+        if (enc == "gzip") != want_gz or enc not in ("gzip", "none"):
+            return "%s: encoding() = %s but the .gz sibling was %ssubstituted" % (ctx, enc, "" if want_gz else "not ")
+        if ("content-encoding" in hdrs) != want_gz or (want_gz and bytes.fromhex(hdrs["content-encoding"]) != b"gzip"):
+            return "%s: add_encoding_headers gives %r" % (ctx, hdrs)
+        if ("vary" in hdrs) != bool(sc["auto"]) or (sc["auto"] and bytes.fromhex(hdrs["vary"]).lower() != b"accept-encoding"):
+            return "%s: Vary header %r" % (ctx, hdrs.get("vary"))
+        if varies != str(sc["auto"]):
+            return "%s: encoding_varies() = %s" % (ctx, varies)
+    return None
+
+
 def run_paths(pid, repo=None):
-    scs = fam_paths()
+    scs = fam_paths() + fam_gz_siblings()
     lines = run_native("dir_witness", [path_line(x) for x in scs], repo)
     for sc, ln in zip(scs, lines):
         obs = ln.split("|", 1)[1]
-        why = oracle_path(pid, sc, obs)
+        why = oracle_gz_sibling(pid, sc, obs) if sc.get("kind") == "gz" else oracle_path(pid, sc, obs)
         if why:
             return {"status": "reproduced on the real code", "reproduced": True, "test": "dir_witness", "scenario": sc, "scenario_line": path_line(sc),
-                    "observation": ln, "violates": pid, "what": why, "searched": len(scs), "bounded": "witness family fam_paths (<= 4 segments)"}
-    return {"status": "no failing input among %d paths" % len(scs), "reproduced": False, "searched": len(scs)}
+                    "observation": ln, "violates": pid, "what": why, "searched": len(scs), "bounded": "witness families fam_paths (<= 4 segments) and fam_gz_siblings"}
+    return {"status": "no failing input among %d paths / sibling scenarios" % len(scs), "reproduced": False, "searched": len(scs)}
 
 
 def fallback(pid, unit, repo=None):
@@ -1072,7 +1226,7 @@ def fallback(pid, unit, repo=None):
     searched = 0
     for test, gen in gens:
         scs = gen()
-        mk = stream_line if test == "stream_witness" else scenario_line
+        mk = _mk_line(test)
         lines = run_native(test, [mk(x) for x in scs], repo)
         searched += len(scs)
         hit = judge(pid, test, scs, lines)
@@ -1101,7 +1255,7 @@ def replay_file(path, repo=None):
     out = run_native(nr["test"], batch, repo)
     ln = out[0]
     if nr["test"] == "dir_witness":
-        why = oracle_path(rec["property"], nr["scenario"], ln.split("|", 1)[1])
+        why = (oracle_gz_sibling if nr["scenario"].get("kind") == "gz" else oracle_path)(rec["property"], nr["scenario"], ln.split("|", 1)[1])
     else:
         scs = [nr["scenario"]] + ([nr["paired_scenario"]] if nr.get("paired_scenario") else [])
         hit = judge(rec["property"], nr["test"], scs, out[:len(scs)])
@@ -1119,6 +1273,18 @@ if __name__ == "__main__":
     fam = sys.argv[1]
     if fam == "pa":
         print(run_paths("C19"))
+        sys.exit(0)
+    if fam == "fi":
+        scs = fam_file()
+        lines = run_native("file_witness", [file_line(x) for x in scs])
+        bad = 0
+        for sc, ln in zip(scs, lines):
+            why = oracle_file("C18", sc, ln)
+            if why:
+                bad += 1
+                if bad < 12:
+                    print("C18", why, file_line(sc), "\n   ", ln)
+        print(len(scs), "scenarios", bad, "oracle failures")
         sys.exit(0)
     if fam in ("ae", "bd"):
         scs = fam_accept_encoding() if fam == "ae" else fam_build()
